@@ -53,3 +53,7 @@ LEVEL_TEXT = ("Kernel-checked theorems for every domain size and every rational 
               "u' = min(1, min_{a>eps} P/a), a zero mass unless vacuous, idempotent. The model is tied to the code by running "
               "proj/maxu/umax of the real crate in all container families and both precisions against the exact model, and the "
               "theorem predicates are evaluated on the implementation's outputs.")
+
+
+# tie theorems (substrings of SLV.Gen.*Tie theorem names) this property's operators depend on
+TIE = ['OpinionRef_projection', 'Simplex_projection', 'normalize_prob_dist', 'max_uncertainty', 'uncertainty_maximized']
